@@ -290,6 +290,12 @@ impl<T: RealNumber> RandomForestRegressor<T> {
         let mut samples = vec![0; nrows];
         for _ in 0..nrows {
             let xi = rng.gen_range(0..nrows);
+            #[cfg(feature = "verif-hooks")]
+            let xi = crate::verif_hooks::choose(
+                crate::verif_hooks::Draw::ForestRegressorBootstrap,
+                nrows,
+            )
+            .unwrap_or(xi);
             samples[xi] += 1;
         }
         samples
